@@ -183,7 +183,7 @@ def conds(tier):
                        timeout=400 if q else 2400, functions=FUNCS[:1], note="edges from HD, NK, -- on whole trees"))
     npar = dict((p, len(_parents(p))) for p in PRESETS)
     for ps in ([0] if q else [0, 1]):
-        kmax = 2 if q else 3
+        kmax = 2
         for k in range(1, kmax + 1):
             cs.append(Cond("rules-%s-k%d" % (PRESETS[ps], k), "harness.c15:rules",
                            [P("par", "int", 0, npar[PRESETS[ps]]), P("hp", "int", 0, k), P("lc", "int", 0, 6 if q else 20),
